@@ -148,6 +148,49 @@ theorem withColumn_spec (names : List String) (name : String) (e : Expr) (rows :
         ∀ n ∈ names, n ≠ name → (rows'[i]).getD (names'.idxOf n) .null = (rows[i]).getD (names.idxOf n) .null :=
   withColumn_ok names name e rows hr he
 
+-- OBLIGATION: PysparklingVerif.C12.withColumn_positional
+/-- the same WITHOUT the assumption that the names are unique - a projection may list a column twice (`select("i", "i", "d")`),
+after which `idxOf` sees only the first copy: position by position, every column called `name` gets the new value and every
+other position keeps the value it had (both copies of `i`); a new name is appended. (The unrepaired `withColumn` raised
+"Reference 'i#N' is ambiguous" on such a frame: repaired in c4f04bd, found by the third hunt.) -/
+theorem withColumn_positional (names : List String) (name : String) (e : Expr) (rows : List Row)
+    (hr : ∀ r ∈ rows, r.length = names.length)
+    (he : ∀ r ∈ rows, ∃ v, evalM r e = .ok v) :
+    ∃ rows', withColumnM names name e rows = .ok (if names.contains name then names else names ++ [name], rows') ∧
+      rows'.length = rows.length ∧
+      ∀ i (h : i < rows.length) (h' : i < rows'.length), ∃ v, evalM rows[i] e = .ok v ∧
+        (names.contains name = true → (rows'[i]).length = names.length ∧
+          ∀ j (hj : j < names.length), (rows'[i])[j]? = if names[j] = name then some v else (rows[i])[j]?) ∧
+        (names.contains name = false → rows'[i] = rows[i] ++ [v]) := by
+  obtain ⟨vals, hvals, hlen, hget⟩ := mapM_ok (fun r => evalM r e) rows he
+  unfold withColumnM
+  rw [hvals]
+  simp only [ok_bind]
+  by_cases hc : names.contains name = true
+  · rw [if_pos hc, if_pos hc]
+    refine ⟨_, rfl, by simp [hlen], ?_⟩
+    intro i h h'
+    have hrl := hr rows[i] (List.getElem_mem h)
+    refine ⟨vals[i]'(by omega), hget i h (by omega), ?_, ?_⟩
+    · intro _
+      simp only [List.getElem_map, List.getElem_zip]
+      refine ⟨by simp [hrl], ?_⟩
+      intro j hj
+      have hj' : j < (rows[i]).length := by omega
+      simp [List.getElem?_map, hj']
+      split <;> simp_all
+    · intro hf; rw [hc] at hf; exact absurd hf (by decide)
+  · rw [if_neg hc, if_neg hc]
+    refine ⟨_, rfl, by simp [hlen], ?_⟩
+    intro i h h'
+    refine ⟨vals[i]'(by omega), hget i h (by omega), ?_, ?_⟩
+    · intro ht; exact absurd ht hc
+    · intro _; simp
+
+/-- SELECT a, a, b followed by a new value NOT b for b: both copies of a stay, b is replaced -/
+example : withColumnM ["a", "a", "b"] "b" (.not (.col 2)) [[.int 1, .int 1, .bool true], [.null, .null, .null]]
+    = .ok (["a", "a", "b"], [[.int 1, .int 1, .bool false], [.null, .null, .null]]) := by decide +kernel
+
 -- non-vacuity
 example : (evalM [.int 1, .null] (.and (.lt (.col 0) (.lit (.dbl (3/2)))) (.isNull (.col 1)))).toOption = some (.bool true) := by
   decide +kernel
